@@ -107,6 +107,17 @@ def gen_cases(c):
         charts, total = chart_runs.small_exhaustive(nprop, cap, rng)
         for k, t in enumerate(charts):
             cases.append({'tree': t, 'words': [chart_runs.WORDS2[k % 7], chart_runs.WORDS2[(k * 3 + 1) % 7] + [b'e']], 'origin': 'exhaustive%d' % nprop})
+    # the families of the shared chart case set (parallels whose regions reach final states, with and without a <history> child
+    # of the <parallel>; histories left and re-entered; multi-target transitions): several event words per compiled machine
+    fam = [(t, chart_runs.DONE_WORDS, 'done-family') for t in chart_runs.done_family()]
+    fam += [(t, chart_runs.DONE_WORDS, 'done-family-history') for h in ('hs', 'hd') for t in chart_runs.done_family(hist=h)]
+    fam += [(t, chart_runs.HISTORY_WORDS, 'history-family') for t in chart_runs.history_family()]
+    fam += [(t, [[b'e'], [b'e', b'e']], 'multi-target-family') for t in chart_runs.multi_target_family()]
+    for k, (t, words, org) in enumerate(fam):
+        if quick and org != 'done-family-history' and k % 2:
+            continue
+        ws = list(words) if not quick else [words[k % len(words)], words[(k + 3) % len(words)]]
+        cases.append({'tree': copy.deepcopy(t), 'words': [list(w) for w in ws], 'origin': org})
     for k in range(nwide):
         n = rng.choice([9, 12, 16, 17, 24, 33, 64]) if k % 8 else rng.choice([255, 256, 257, 300])
         t = wide_chart(rng, n)
